@@ -26,7 +26,7 @@ ASSUMPTIONS = ["child processes are replaced by harness-controlled fake processe
 def budget(tier):
     if tier == "thorough":
         return {"cases": 400000, "deadline_s": 600, "case_timeout_s": 60, "floors": {"spawn_events": 600000, "bad_dep_tasks": 200000}}
-    return {"cases": 40000, "deadline_s": 80, "case_timeout_s": 60, "floors": {"spawn_events": 60000, "bad_dep_tasks": 20000}}
+    return {"cases": 25000, "deadline_s": 80, "case_timeout_s": 60, "floors": {"spawn_events": 30000, "bad_dep_tasks": 10000}}
 
 
 def gen_case(rng, idx, tier):
@@ -44,6 +44,9 @@ def run_case(case):
         h = vloop.run_harness(case, d)
         poolcase.eval_c11(h, res)
         res.sig = poolcase.event_string(h)
+        res.obs("events", h.events[:60])
+        res.obs("transitions", h.transitions[:40])
+        res.obs("final_states", h.snapshots[-1]["states"] if h.snapshots else None)
         kinds = {e["kind"] for e in h.events}
         res.nontrivial = any(len(t["deps"]) >= 2 for t in case["tasks"]) and ("cancel" in kinds or any(e["kind"] == "exit" and e["code"] != 0 for e in h.events))
         res.count("quiescent_points", len(h.snapshots))
